@@ -327,7 +327,7 @@ def run(chk):
     chk.traces += nemit + len(r.emits)
     # 3. I->S trace validation
     evs = record_events(T, rnd, 1 if quick else 12, 200)
-    wd = VERIF / "out" / "work" / "C12_trace_in"
+    wd = tlc.WORK / "C12_trace_in"
     wd.mkdir(parents=True, exist_ok=True)
     tf = wd / "events.json"
     tf.write_text(json.dumps(evs))
